@@ -21,12 +21,29 @@ def _is_param(tree, p):
     return t == ("path", ("arg", p), ())
 
 
+def _calls(prog, cg, cur, cname, cself):
+    bodies = [cur] + ([] if cur.is_closure else prog.closures_of(cur))
+    for b in bodies:
+        for bi, t, cal in mir.iter_calls(b, name=cname):
+            callee = cg.lookup(b.unit, cal.get("resolved") or cal["key"])
+            if callee is not None and not callee.is_test() and (not cself or callee.self_name == cself):
+                return True
+    return False
+
+
 def check_chain(rep, prog, rid, what, start_body, start, hops, sink=None, consequence=""):
     cg = callgraph(prog)
     cur, param = start_body, (start if isinstance(start, int) else None)
     src_pred = None if isinstance(start, int) else start
     ok = True
-    for hi, (cname, cself) in enumerate(hops):
+    hi = -1
+    while hi + 1 < len(hops):
+        hi += 1
+        cname, cself = hops[hi]
+        # a hop that was inlined by hand is skipped: the current function may call a LATER hop directly
+        if hi + 1 < len(hops) and not _calls(prog, cg, cur, cname, cself):
+            if any(_calls(prog, cg, cur, n2, s2) for (n2, s2) in hops[hi + 1:]):
+                continue
         pv = df.Prov(cur)
         nxt = None
         seen_call = False
@@ -50,8 +67,8 @@ def check_chain(rep, prog, rid, what, start_body, start, hops, sink=None, conseq
                 if nxt is None:
                     args = [df.canon(pvb.op_tree(a), b) for a in t["args"]]
                     rep.violation(rid, cur.key, "%s -> %s" % (what, cname),
-                                  "%s is not what %s hands to %s (arguments: %s)%s" % (
-                                      what, cur.key.split("::")[-1], cname, args, consequence), where=fc.where(b, t["sp"][1]))
+                                  "%s is not what %s hands to %s::%s (arguments: %s)%s" % (
+                                      what, cur.key.split("::")[-1], cself, cname, args, consequence), where=fc.where(b, t["sp"][1]))
                     ok = False
         if not seen_call and nxt is None:
             rep.violation(rid, cur.key, "%s -> %s" % (what, cname),
